@@ -183,6 +183,13 @@ def window_args(window):
             return a.replace(tzinfo=_tz.utc), b.replace(tzinfo=_tz.utc)
         if kind == "aware-zoned":
             return tzp.localize(a, B), tzp.localize(b, B)
+        # narrow windows: an event's own start and end on one day, one date twice, two neighbouring dates
+        if kind == "same-day":
+            return datetime(2024, 6, 1, 9, 0), datetime(2024, 6, 1, 17, 0)
+        if kind == "same-date":
+            return date(2024, 6, 1), date(2024, 6, 1)
+        if kind == "two-days":
+            return date(2024, 6, 1), date(2024, 6, 2)
         raise AssertionError(kind)
     return window
 
@@ -317,7 +324,7 @@ def run(ctx):
         for provider in env.PROVIDERS:
             for placements in list(subsets(pl, 1)) + [("P1", "P2"), ("P5", "P9")]:
                 for presets in ((), ("tzA",)):
-                    for kind in ("naive", "aware-utc", "aware-zoned"):
+                    for kind in ("naive", "aware-utc", "aware-zoned", "same-day", "same-date", "two-days"):
                         yield ("c", provider, "parse", placements, presets, (kind,))
 
     ctx.explore("calendars x histories", gen, run_case)
